@@ -284,12 +284,12 @@ Theorem C03_empty_psk_as_coded :
 Proof. exact empty_psk_as_coded. Qed.
 Print Assumptions C03_empty_psk_as_coded.
 
-(* ---- D (known finding, not repaired): a PSK-only client on DTLS 1.3 *)
+(* ---- F57 (repaired): a PSK-only client on DTLS 1.3 *)
 Theorem C03_client13_psk_only_refuted :
   exists k v, p_from_client v = false /\ k_psk_only k = true /\ sig_sound_p v /\
     (forall ipname bind req, flight13_top false ipname bind req k v = Accept) /\
     flight13_credential k v = false /\
-    (forall ipname bind req, flight13_top true ipname bind req k v = Reject a_handshake_failure).
+    (forall ipname bind req, flight13_top true ipname bind req k v = Reject a_config_refused).
 Proof. exact client13_psk_only_refuted. Qed.
 Print Assumptions C03_client13_psk_only_refuted.
 
